@@ -39,20 +39,6 @@ pub struct Case {
     pub items: Vec<Item>,
 }
 
-fn looks_builtin_or_grey(t: &str) -> bool {
-    let l = t.trim_start().to_ascii_lowercase();
-    if l.starts_with("use") {
-        // `use` followed by whitespace or nothing resembles a USE statement
-        let rest = &l[3..];
-        return rest.is_empty() || rest.starts_with(|c: char| c.is_whitespace() || c == '`');
-    }
-    if l.starts_with("select") {
-        let rest = l[6..].trim_start();
-        return rest.starts_with("@@");
-    }
-    false
-}
-
 fn gen_plain_text(g: &mut G<'_>) -> String {
     let t = match g.weighted(&[4, 4, 2, 1]) {
         0 => g.pick(&["SELECT 1", "INSERT INTO t VALUES (1)", "select * from foo", "SHOW TABLES", "x", "", "\u{0}", "SELECT 'USE x'", "-- use db"]).to_string(),
@@ -139,6 +125,13 @@ impl Prop for C02 {
     }
     fn cases(&self, tier: Tier) -> u64 {
         tier.pick(40_000, 600_000)
+    }
+    fn fuzz_plan(&self, tier: Tier) -> Vec<(&'static str, u64)> {
+        if tier == Tier::Thorough {
+            vec![("prop", 150_000)]
+        } else {
+            vec![]
+        }
     }
     fn choice_len(&self) -> usize {
         4096
@@ -378,55 +371,71 @@ impl Prop for C02 {
             ex.fail("c02-run-result", format!("run_on returned {}", o.result.brief()));
             return ex;
         }
-        // walk the log against the model
+        // align the log with the model; grey items may or may not have produced a callback, so the
+        // alignment is searched (lists are short)
         let got: Vec<&Event> = o.events.iter().skip(1).collect();
-        let mut gi = 0;
-        for (k, a) in accepts.iter().enumerate() {
-            let name = conv.cmds[k].cmd.name();
-            match a {
-                Accept::Nothing => {}
-                Accept::Ends => break,
-                Accept::Exactly(w) => {
-                    match got.get(gi) {
+        fn grey_ok(ev: &Event, t: &str) -> bool {
+            match ev {
+                Event::Query(q) => q == t,
+                // a bare name: no quotes, no trailing semicolon, no surrounding blanks, taken from the text
+                Event::Init(n) => !n.contains('`') && !n.ends_with(';') && n.trim() == n && t.contains(n.as_str()),
+                _ => false,
+            }
+        }
+        fn align(accepts: &[Accept], got: &[&Event], k: usize, gi: usize, memo: &mut std::collections::HashSet<(usize, usize)>) -> bool {
+            if k == accepts.len() {
+                return gi == got.len();
+            }
+            if !memo.insert((k, gi)) {
+                return false;
+            }
+            match &accepts[k] {
+                Accept::Nothing => align(accepts, got, k + 1, gi, memo),
+                Accept::Ends => gi == got.len(),
+                Accept::Exactly(w) => gi < got.len() && got[gi] == w && align(accepts, got, k + 1, gi + 1, memo),
+                Accept::GreyQuery(t) => align(accepts, got, k + 1, gi, memo) || (gi < got.len() && grey_ok(got[gi], t) && align(accepts, got, k + 1, gi + 1, memo)),
+            }
+        }
+        let mut memo = Default::default();
+        if !align(&accepts, &got, 0, 0, &mut memo) {
+            // explain with a greedy walk
+            let mut gi = 0;
+            let mut why = None;
+            for (k, a) in accepts.iter().enumerate() {
+                let name = conv.cmds[k].cmd.name();
+                match a {
+                    Accept::Nothing => {}
+                    Accept::Ends => break,
+                    Accept::Exactly(w) => match got.get(gi) {
                         Some(g) if *g == w => gi += 1,
                         Some(g) => {
-                            ex.fail("c02-wrong-callback", format!("command {} ({}): shim saw {}, model expects {}", k, name, g.brief(), w.brief()));
-                            return ex;
+                            why = Some(("c02-wrong-callback", format!("command {} ({}): shim saw {}, model expects {}", k, name, g.brief(), w.brief())));
+                            break;
                         }
                         None => {
-                            ex.fail("c02-missing-callback", format!("command {} ({}): no callback, model expects {}", k, name, w.brief()));
-                            return ex;
+                            why = Some(("c02-missing-callback", format!("command {} ({}): no callback, model expects {}", k, name, w.brief())));
+                            break;
                         }
-                    }
-                }
-                Accept::GreyQuery(t) => {
-                    // may be swallowed, or arrive verbatim at on_query, or bare at on_init
-                    if let Some(g) = got.get(gi) {
-                        match g {
-                            Event::Query(q) if q == t => gi += 1,
-                            Event::Init(n) => {
-                                let bare = !n.contains('`') && !n.ends_with(';') && n.trim() == n && t.contains(n.as_str());
-                                if bare {
-                                    gi += 1;
-                                }
-                                // not bare: either the callback belongs to a later command (caught
-                                // below) or the name is wrong; decide by looking at what follows
-                                else if !matches!(accepts.get(k + 1), Some(Accept::Exactly(Event::Init(_)))) {
-                                    ex.fail("c02-use-name-not-bare", format!("command {} ({:?}) reached on_init with name {:?}", k, t, n));
-                                    return ex;
+                    },
+                    Accept::GreyQuery(t) => {
+                        if let Some(g) = got.get(gi) {
+                            if grey_ok(g, t) {
+                                gi += 1;
+                            } else if let Event::Init(n) = g {
+                                if t.to_ascii_lowercase().trim_start().starts_with("use") && !matches!(accepts.get(k + 1), Some(Accept::Exactly(Event::Init(_)))) {
+                                    why = Some(("c02-use-name-not-bare", format!("command {} ({:?}) reached on_init with name {:?}", k, t, n)));
+                                    break;
                                 }
                             }
-                            _ => {}
                         }
                     }
                 }
             }
-        }
-        if gi != got.len() {
-            ex.fail(
+            let (key, msg) = why.unwrap_or((
                 "c02-extra-callback",
                 format!("shim saw {} callbacks, the model accounts for {}; first unexplained: {}", got.len(), gi, got.get(gi).map(|e| e.brief()).unwrap_or_default()),
-            );
+            ));
+            ex.fail(key, msg);
         }
         ex
     }
